@@ -410,6 +410,12 @@ def write_replay(prop, kind, payload):
     open(p, "w").write(body + "\n")
     return p
 
+DEFAULT_RULE = ("cases come from one PRNG seeded by VERIF_SEED: the committed corpus first, then structured (mostly legal) cases "
+                "drawn from the property's generator / the extracted Coq encoder, boundary cases and, where robustness matters, "
+                "malformed ones; evaluations counts every case run through implementation and model; a case counts as distinct and "
+                "non-trivial when the property module calls ctx.nontrivial(key) for it, i.e. it reached the mechanism under test "
+                "(not rejected up front) and its canonical key (case text / file content and call) was not seen before in this run")
+
 def write_evidence(ctx, proof, violations, extra_cov=None, assumptions=None):
     cov = {
         "obligations": max(1, proof.get("obligations", 0)),
@@ -426,10 +432,12 @@ def write_evidence(ctx, proof, violations, extra_cov=None, assumptions=None):
         "proof_files": proof.get("files", []),
         "proof_ok": bool(proof.get("ok")),
         "proof_failure": proof.get("reason", ""),
+        "coqchk": proof.get("coqchk", "not run in this tier (thorough only)"),
         "evaluations": ctx.evaluations,
         "distinct_nontrivial": len(ctx.distinct),
         "traces_validated_against_impl": ctx.traces,
         "disagreements_checked": len(ctx.disagreements),
+        "rule": getattr(ctx, "rule", None) or DEFAULT_RULE,
         "samples": ctx.samples[:8] or ["(no correspondence cases were run)"],
         "input_distribution": ctx.distribution,
         "known_findings_seen": sorted(ctx.known_hits.keys()),
